@@ -1,4 +1,47 @@
-(* placeholder until proofs land *)
-From PV Require Import Model.Timeline.
-Theorem C10_placeholder : True. Proof. exact I. Qed.
-Print Assumptions C10_placeholder.
+(* C10  segmentation splits the support at every boundary; get_overlap finds shared time.
+   Exact cell-level statements at eps = 0. Statements only.
+   (Annotation.get_overlap is stated in the annotation part, see C10_ann_* below when present.) *)
+From PV Require Import Model.Timeline Proofs.SortedP Proofs.SupportP Proofs.GapsP Proofs.SegmentationP.
+
+Section C10.
+Variable l : list seg.
+Hypothesis Hl : wf 0 l.
+
+(* segmentation(): covers exactly the cells the timeline covers *)
+Theorem C10_segmentation_cells : forall k, covers_cell (segmentation 0 l) k <-> covers_cell l k.
+Proof. exact (segmentation_cells l Hl). Qed.
+(* pieces do not overlap *)
+Theorem C10_segmentation_disjoint : forall p q, In p (segmentation 0 l) -> In q (segmentation 0 l) ->
+  p = q \/ en p <= st q \/ en q <= st p.
+Proof. exact (segmentation_disjoint l). Qed.
+(* split at every original start and end (no original bound strictly inside a piece) and
+   nowhere else (every piece bound is an original bound) *)
+Theorem C10_segmentation_pieces : forall p, In p (segmentation 0 l) ->
+  st p < en p /\ is_bound l (st p) /\ is_bound l (en p) /\ clean l (st p) (en p) /\
+  (forall k, st p <= k < en p -> covers_cell l k).
+Proof. exact (segmentation_pieces l Hl). Qed.
+(* each original segment is the exact union of the pieces it contains *)
+Theorem C10_original_is_union_of_pieces : forall s k, In s l -> st s <= k < en s ->
+  exists p, In p (segmentation 0 l) /\ st p <= k < en p /\ st s <= st p /\ en p <= en s.
+Proof. exact (segmentation_refines l Hl). Qed.
+Theorem C10_segmentation_sorted : wf 0 (segmentation 0 l).
+Proof. unfold segmentation. destruct (zdedup _); [split; constructor | apply wf_tl_of]. Qed.
+
+(* get_overlap(): canonical decomposition of the cells covered by two distinct segments *)
+Theorem C10_get_overlap : canonical (get_overlap 0 l) /\
+  (forall k, covers_cell (get_overlap 0 l) k <-> covered_twice l k).
+Proof. exact (get_overlap_spec l Hl). Qed.
+End C10.
+
+Example C10_nonvacuous :
+  wf 0 [(0,4); (1,2); (1,6); (8,9); (9,11)] /\
+  segmentation 0 [(0,4); (1,2); (1,6); (8,9); (9,11)] = [(0,1); (1,2); (2,4); (4,6); (8,9); (9,11)] /\
+  get_overlap 0 [(0,4); (1,2); (1,6); (8,9); (9,11)] = [(1,4)].
+Proof. split; [split; repeat constructor | vm_compute; repeat split]. Qed.
+
+Print Assumptions C10_segmentation_cells.
+Print Assumptions C10_segmentation_disjoint.
+Print Assumptions C10_segmentation_pieces.
+Print Assumptions C10_original_is_union_of_pieces.
+Print Assumptions C10_segmentation_sorted.
+Print Assumptions C10_get_overlap.
